@@ -287,4 +287,12 @@ def run(tier, seed):
                 'digits': 'digit strings of <= %d symbolic digits with `_` in every listed pattern; 19-digit literals at the 2^63 boundary' % (3 if tier == 'quick' else 7), 'hex': 'every ASCII character except `"` `\\` `$` against its \\xHH spelling', 'jobs': len(jobs)}
     c.outside = ['layout rewrites inside string literals and comments (not layout)', 'longer holes', 'the parser: token-stream equality is the premise; the generated parser consumes tokens and positions only']
     c.run_jobs('layout', jobs, par_jobs=10, par_paths=1)
+    # whole programs through `main` (file reading included): the same program with LF / CRLF line ends, `;`, blank lines, comments; a line
+    # break written raw inside a string literal is part of the string, byte for byte, like its \xHH spelling
+    body = ['x := @h10@', 'fn f(a, b) {', '    return a +', '        b', '}', 's := "l1{NL}l2"', 'print(s->len())', 'print(s == "l1{ESC}l2")', 'for [i, ch] in s {', '    if ch == "\\x0d" {', '        print(i)', '    }', '}', 'print(f(x, 1))', 'xs := [', '    1,', '    2,', ']', 'print(xs)']
+    def prog(nl, sep): return sep.join(l.replace('{NL}', nl).replace('{ESC}', ''.join('\\x%02x' % ord(ch) for ch in nl)) for l in body) + sep
+    progs = {'lf': prog('\n', '\n'), 'crlf': prog('\r\n', '\r\n'), 'crlf-literal-in-lf-file': prog('\r\n', '\n'), 'lf-literal-in-crlf-file': prog('\n', '\r\n'), 'blank-and-comments': prog('\n', '\n\n  # c\n'), 'cr-only-literal': prog('\r', '\n')}
+    ts = [{'name': 'program-' + k, 'src': v} for k, v in progs.items()]
+    c.run_family('whole-programs', ts, ('exit', 'stdout', 'stderr-empty', 'panic', 'hang'), lambda v: 'layout-program:%s:%s' % (v.get('template'), v['aspect']))
+    c.bounds['whole_programs'] = '%d spellings of one program (LF / CRLF line ends, raw CR / LF / CRLF inside a string literal, blank and comment lines), each in lock-step with the reference' % len(ts)
     return c.finish()
